@@ -181,6 +181,19 @@ def hazard_alphabet():
     # depth-sliced producers followed by REDUCE_SUM (reads the whole IFM depth, OFM depth 1)
     A.append(("convX>Y_c24", conv_spec(X, Y, hw=(4, 8), cin=8, cout=24, block=(4, 8, 16))))
     A.append(("addXs>Y_c24", ew_spec("ADD", X, None, Y, hw=(4, 8), c=24, scalar=1.0, block=(4, 8, 16))))
+    # ranges nested inside other ranges of the same operation (broadcast operand inside the IFM buffer; four tiles over one
+    # contiguous buffer) and transfers that touch only the tail of such a buffer
+    A.append(("addX_bcastinX>Y", ew_spec("ADD", X, X + 16, Y, bshape=(1, 1, 8))))
+    A.append(("dmaY>Xtail", dma_spec(1, Y, 1, X + 1024, 1024)))
+    A.append(("dmaXtail>Z", dma_spec(1, X + 1024, 1, Z, 1024)))
+    A.append(("dmaF>Xtail", dma_spec(0, 0x2000, 1, X + 1024, 1024)))
+    A.append(("dmaF>Xhead", dma_spec(0, 0x2000, 1, X, 512)))
+    t4 = conv_spec(X, Y)
+    t4["ifm"]["tiles"] = dict(h0=8, h1=8, w0=8, addr=[X, X + 64, X + 1024, X + 1088])
+    A.append(("convX4tiles>Y", t4))
+    t4o = conv_spec(Y, X)
+    t4o["ofm"]["tiles"] = dict(h0=8, h1=8, w0=8, addr=[X, X + 64, X + 1024, X + 1088])
+    A.append(("convY>X4tiles", t4o))
     rs = pool_spec("REDUCE_SUM", Y, X, k=(1, 1), s=(1, 1), hw=(4, 8), c=24)
     rs["ofm"] = fm((4, 8, 1), X)
     A.append(("rsumY>X_c24", rs))
